@@ -173,6 +173,7 @@ Mul(x, y, mode) ==
     IF ~(Scalable(x.t) /\ Scalable(y.t)) THEN ErrV("UndefinedResultError")
     ELSE Resolve(DimAdd(DimOf(x.t), DimOf(y.t), 1), SMul(RefVal(x), RefVal(y)),
                  IsQ(x) \/ IsQ(y), mode)
+ZeroOrUndef == ErrV("ZeroDivisionError|UndefinedResultError")
 Div(x, y, mode) ==
     IF x.t = y.t
     THEN \* same type: the plain exact ratio
@@ -182,19 +183,25 @@ Div(x, y, mode) ==
                     IF IsQ(x) \/ IsQ(y) THEN NumV(SDiv(x.a, Equiv(y, x.u)))
                     ELSE NumV(SDiv(x.a, Equiv(y, x.u))))
     ELSE IF ~(Scalable(x.t) /\ Scalable(y.t)) THEN ErrV("UndefinedResultError")
-    ELSE IF RefVal(y) = RZero THEN ErrV("ZeroDivisionError")
+    \* a zero divisor AND no type for the quotient's dimension: the property does not say which of the two errors
+    \* is reported - either is accepted (ZeroOrUndef)
+    ELSE IF RefVal(y) = RZero
+         THEN (IF Resolve(DimAdd(DimOf(x.t), DimOf(y.t), -1), ROne, TRUE, mode).k = "e" THEN ZeroOrUndef
+               ELSE ErrV("ZeroDivisionError"))
     ELSE Resolve(DimAdd(DimOf(x.t), DimOf(y.t), -1), SDiv(RefVal(x), RefVal(y)),
                  IsQ(x) \/ IsQ(y), mode)
 \* number / quantity-or-unit
 RDivNum(k, y, mode) ==
     IF ~Scalable(y.t) THEN ErrV("UndefinedResultError")
-    ELSE IF RefVal(y) = RZero THEN ErrV("ZeroDivisionError")
+    ELSE IF RefVal(y) = RZero
+         THEN (IF Resolve(DimMul(DimOf(y.t), -1), ROne, TRUE, mode).k = "e" THEN ZeroOrUndef ELSE ErrV("ZeroDivisionError"))
     ELSE Resolve(DimMul(DimOf(y.t), -1), SDiv(k.a, RefVal(y)), TRUE, mode)
 Pow(x, n, mode) ==
     IF n = 0 THEN NumV(ROne)
     ELSE IF n = 1 THEN Construct(x.u, x.a, mode)
     ELSE IF ~Scalable(x.t) THEN ErrV("UndefinedResultError")
-    ELSE IF n < 0 /\ RefVal(x) = RZero THEN ErrV("ZeroDivisionError")
+    ELSE IF n < 0 /\ RefVal(x) = RZero
+         THEN (IF Resolve(DimMul(DimOf(x.t), n), ROne, TRUE, mode).k = "e" THEN ZeroOrUndef ELSE ErrV("ZeroDivisionError"))
     ELSE Resolve(DimMul(DimOf(x.t), n), SPowI(RefVal(x), n), TRUE, mode)
 
 (* C13.  rm: requested mode or NONE (=> default mode).  The result is       *)
